@@ -56,7 +56,9 @@ type Script struct {
 	CtxDone bool `json:"ctx_done,omitempty"`
 	// IDFrom (PushBlobChunkedResume): the upload id is the one of an upload started, through the same
 	// wrapper, in repository IDFrom just before (when the policy lets that through)
-	IDFrom       string `json:"id_from,omitempty"`
+	IDFrom string `json:"id_from,omitempty"`
+	// Before: a call of this method about the same repository is made through the same wrapper first
+	Before       string `json:"before,omitempty"`
 	Inner        string `json:"inner,omitempty"`
 	InnerRejects bool   `json:"inner_rejects,omitempty"`
 }
@@ -203,6 +205,24 @@ func run(s Script, v *vt.V) {
 		if w0, err := reg.PushBlobChunked(ctx, s.IDFrom, 17); err == nil {
 			s.ID = w0.ID() // (the upload stays open: it is neither committed nor cancelled)
 			v.Class("resume-with-id-of-another-upload")
+		}
+		priorCalls = len(r.Calls())
+		priorWriters = len(r.Writers())
+		policyCalls = nil
+		innerPolicyCalls = 0
+	}
+	if s.Before != "" && s.IDFrom == "" {
+		// another call through the same wrapper comes first, about the same repository but of another
+		// kind: what the policy said about that one is nothing to this one
+		switch s.Before {
+		case "ResolveBlob":
+			reg.ResolveBlob(ctx, s.Repo, dg)
+		case "PushManifest":
+			reg.PushManifest(ctx, s.Repo, "tag0", []byte("{}"), "m/t")
+		case "DeleteTag":
+			reg.DeleteTag(ctx, s.Repo, "tag0")
+		case "Tags":
+			ociregistry.All(reg.Tags(ctx, s.Repo, ""))
 		}
 		priorCalls = len(r.Calls())
 		priorWriters = len(r.Writers())
@@ -505,6 +525,9 @@ func genScript(t *rapid.T) Script {
 		s.Start = rapid.SampledFrom([]string{"", "a", "b", "zz"}).Draw(t, "start")
 	}
 	s.CtxDone = rapid.IntRange(0, 5).Draw(t, "ctxDone") == 0
+	if rapid.IntRange(0, 2).Draw(t, "before") == 0 {
+		s.Before = rapid.SampledFrom([]string{"ResolveBlob", "PushManifest", "DeleteTag", "Tags"}).Draw(t, "beforeMethod")
+	}
 	if rapid.IntRange(0, 3).Draw(t, "stacked") == 0 {
 		s.Inner = rapid.SampledFrom([]string{"access", "select"}).Draw(t, "inner")
 		s.InnerRejects = rapid.Bool().Draw(t, "innerRejects")
@@ -522,7 +545,7 @@ func genScript(t *rapid.T) Script {
 var prop = &vt.Prop[Script]{
 	ID:   "C12",
 	Name: "FilterWrappersRandomPolicies",
-	Rule: "wrapper in {AccessChecker, Select}; policy = random table (repository name, access kind) -> allow | one of three distinct errors, with a default row (pure function; Select's depends on the name only); method = each of the 18 Interface methods with repositories from {a, b, a/b, c, the empty name, '../a', and the spellings 'c/../a', 'a/', 'a//b', './b' with verdicts of their own} (the policy is asked about whatever name the caller passes; mount: source and target, incl. the same repository), resume ids {empty, opaque, shaped like the upload location of each repository} x offsets {-1,0,1,100}, listing start points, backend repository listings incl. a repository named '*'; recording backend that accepts everything; a sixth of the calls are made with an already cancelled context; a third of the resumes present the id of an upload just started through the same wrapper in another (or the same) repository; the sequence of a rejected Tags / Referrers call is run a second time; a quarter of the wrappers are laid over a registry that is itself an AccessChecker/Select wrapper with a counting policy of its own (allow-all or reject-all): that wrapper is the wrapped registry, so a call the outer policy rejects does not reach its policy either and fails with the outer policy's error; oracle = policy rejects => zero backend calls, the policy's own error (Select: name-unknown for read/list/delete, denied for write), no data; policy allows => exactly one backend call with the caller's context and arguments, the backend's own reader/writer/results (writers are used: Write+Commit must land in the backend's session); repository listings = backend's list filtered by the read verdict; a backend listing that breaks off by yielding a name together with an error reaches the consumer as an error without any hidden name; non-trivial = some involved repository is rejected, or a listing is filtered; distinct = (wrapper, method, policy, arguments)",
+	Rule: "wrapper in {AccessChecker, Select}; policy = random table (repository name, access kind) -> allow | one of three distinct errors, with a default row (pure function; Select's depends on the name only); method = each of the 18 Interface methods with repositories from {a, b, a/b, c, the empty name, '../a', and the spellings 'c/../a', 'a/', 'a//b', './b' with verdicts of their own} (the policy is asked about whatever name the caller passes; mount: source and target, incl. the same repository), resume ids {empty, opaque, shaped like the upload location of each repository} x offsets {-1,0,1,100}, listing start points, backend repository listings incl. a repository named '*'; recording backend that accepts everything; a sixth of the calls are made with an already cancelled context; a third of the calls come after a call of another kind (read, write, delete, list) about the same repository through the same wrapper; a third of the resumes present the id of an upload just started through the same wrapper in another (or the same) repository; the sequence of a rejected Tags / Referrers call is run a second time; a quarter of the wrappers are laid over a registry that is itself an AccessChecker/Select wrapper with a counting policy of its own (allow-all or reject-all): that wrapper is the wrapped registry, so a call the outer policy rejects does not reach its policy either and fails with the outer policy's error; oracle = policy rejects => zero backend calls, the policy's own error (Select: name-unknown for read/list/delete, denied for write), no data; policy allows => exactly one backend call with the caller's context and arguments, the backend's own reader/writer/results (writers are used: Write+Commit must land in the backend's session); repository listings = backend's list filtered by the read verdict; a backend listing that breaks off by yielding a name together with an error reaches the consumer as an error without any hidden name; non-trivial = some involved repository is rejected, or a listing is filtered; distinct = (wrapper, method, policy, arguments)",
 	Gen:  genScript,
 	Run:  run,
 }
